@@ -146,7 +146,26 @@ def run(ctx):
             d = bdefs.get(p)
             if d is not None and d.op == "load" and G.parse_load(d) in pos_slots and not any(i is x for x in finals):
                 bwrites.append(i)
-    ctx.require(len(bwrites) >= 3 and len(ftor_calls) == 1, "bundle_foreach: appends (%d) / functor call (%d) not found" % (len(bwrites), len(ftor_calls)))
+    # library copies through the cursor (memcpy of the name's tail) are appends as well
+    bcopies = []
+    for c_ in bf.calls():
+        if c_.callee and (c_.callee.startswith("llvm.memcpy") or c_.callee in ("memcpy", "memmove", "strncpy") or c_.callee.startswith("llvm.memmove")) and c_.args:
+            d = bdefs.get(c_.args[0])
+            if d is not None and d.op in ("getelementptr", "bitcast") and d.ops:
+                d = bdefs.get(d.ops[0])
+            if d is not None and d.op == "load" and G.parse_load(d) in pos_slots:
+                bcopies.append(c_)
+    ctx.require(len(bwrites) + len(bcopies) >= 2 and len(ftor_calls) == 1, "bundle_foreach: appends (%d) / functor call (%d) not found" % (len(bwrites) + len(bcopies), len(ftor_calls)))
+    # what is appended is a string when the functor reads the buffer: a NUL is stored through the cursor on every path from an
+    # append of name bytes (a byte store of a loaded character, a library copy) to the functor call
+    nul_cur = [i for i in bf.insts() if i.op == "store" and i.text.startswith("store i8 ") and G.parse_store(i)[0] == "0" and
+               bdefs.get(G.parse_store(i)[1]) is not None and bdefs[G.parse_store(i)[1]].op == "load" and G.parse_load(bdefs[G.parse_store(i)[1]]) in pos_slots]
+    name_appends = [w for w in bwrites if G.parse_store(w)[0] != "0" and bdefs.get(G.parse_store(w)[0]) is not None and bdefs[G.parse_store(w)[0]].op == "load"] + bcopies
+    for w in name_appends:
+        esc = FL.escapes(bf, w, nul_cur, ftor_calls)
+        ctx.ob("R09.4", "bundle_foreach: append@%s terminated" % w.line, esc is None, site=w.where(),
+               key="R09.4:bundle_foreach:append",
+               what="bundle_foreach: the name bytes appended at %s reach the walker call at %s without a terminating NUL behind them: the reported address ends in whatever an earlier, longer expansion left in the buffer" % (w.where(), esc.where() if esc is not None else ""))
     brets = [i for i in bf.insts() if i.op == "ret"]
     for w in bwrites + ftor_calls:
         esc = FL.escapes(bf, w, finals, brets)
